@@ -89,8 +89,8 @@ def witness_tie(ctx, h, drv, fname, drvargs=()):
     if os.path.exists(p):
         return tie(ctx, "known-" + fname[:-5], [h, "run", p], [drv, *drvargs])
 
-def standard_run(ctx, module, theorems, witnesses, quick_n=(3000, 3000), thorough_n=(60000, 60000), extra=None,
-                 async_n=(1500, 30000)):
+def standard_run(ctx, module, theorems, witnesses, quick_n=(3000, 3000), thorough_n=(20000, 20000), extra=None,
+                 async_n=(1500, 10000)):
     ctx.lean_obligations(module, theorems)
     drv = ctx.lean_exe("fvdrv_chan")
     h = ctx.cargo_build("chan", "chanh", rustflags=CHAN_RUSTFLAGS)
